@@ -24,7 +24,21 @@
 (*                      "instance exists, namespace does not")            *)
 (*   DeleteClassUndo = FALSE: DeleteClass does not restore the instances   *)
 (*                      deleted before the one its provider rejects (must  *)
-(*                      FAIL; this is the code today, see known findings)  *)
+(*                      FAIL; the code before its repair 61ef456)          *)
+(*   DeleteClassInstances = "per-class": DeleteClass enumerates the        *)
+(*                      instances to delete per class of its loop, so the  *)
+(*                      snapshot is taken only when the loop reaches the   *)
+(*                      first class that HAS instances - after the         *)
+(*                      instance-less subclasses were deleted (must FAIL)  *)
+(*   NsAlias = "lexical": the namespaces of the references of an           *)
+(*                      association are de-duplicated as strings, so two   *)
+(*                      spellings of the same other namespace are written  *)
+(*                      twice; the second write finds the first (must FAIL)*)
+(*   MultiNsDelete = "interleaved": DeleteInstance of a multi-namespace    *)
+(*                      association deletes namespace by namespace and     *)
+(*                      notices a missing copy only when it gets there     *)
+(*                      (must FAIL with three namespaces; this is the code *)
+(*                      today, see known findings)                         *)
 (*   RollbackScope = "target-namespace": the batch snapshot covers only    *)
 (*                      the namespace the call was made for (must FAIL for *)
 (*                      productions that write outside it)                 *)
@@ -49,8 +63,29 @@ CONSTANTS Rollback, NsProviderOrder, MaxBatch,
                              \* provider: namespace not empty / the Interop
                              \* namespace).  TRUE: the instances deleted
                              \* before the rejected one are restored (the
-                             \* repair); FALSE: they stay deleted (the code
-                             \* today - known finding)
+                             \* code since 61ef456: snapshot + restore);
+                             \* FALSE: they stay deleted
+          DeleteClassInstances, \* "subtree-first": the instances of the whole
+                             \* subtree are enumerated (and the snapshot is
+                             \* taken) in the first iteration of the loop
+                             \* over the classes, before any class is deleted
+                             \* (the code); "per-class": each iteration
+                             \* enumerates the instances of its own class, the
+                             \* snapshot is taken at the first class that has
+                             \* instances - instance-less subclasses are
+                             \* already gone by then
+          NsAlias,           \* "nocase": two references that spell the same
+                             \* other namespace differently (namespace names
+                             \* are case insensitive) count as ONE namespace
+                             \* (the code); "lexical": as two - the copy is
+                             \* written for the first spelling and found by
+                             \* the second
+          MultiNsDelete,     \* DeleteInstance of an association that spans
+                             \* several namespaces: "all-first" = existence
+                             \* of every copy checked before the first delete
+                             \* (the repair); "interleaved" = each namespace
+                             \* checked when it is its turn (the code today -
+                             \* known finding for three namespaces)
           RollbackScope      \* "repository": the snapshot of a batch is the
                              \* complete repository (the code: deepcopy of
                              \* conn.cimrepository); "target-namespace": only
@@ -114,6 +149,15 @@ Table ==
    DeleteClassProvider |-> <<Ck("ns"), Ck("notfound"), Ck("inst1-rejected"),
                              Wr(3), Wr(4), Ck("inst2-rejected"), Wr(2),
                              Wr(1)>>,
+   \* the class has an instance-less subclass (3); its instance (2) is
+   \* served by a provider that may reject the deletion; 1 = the class.
+   \* MainProvider.DeleteClass loops over subclasses, then the class.
+   DeleteClassSubtree |->
+       IF DeleteClassInstances = "subtree-first"
+       THEN <<Ck("ns"), Ck("notfound"), Ck("inst1-rejected"), Wr(2), Wr(3),
+              Wr(1)>>
+       ELSE <<Ck("ns"), Ck("notfound"), Wr(3), Ck("inst1-rejected"), Wr(2),
+              Wr(1)>>,
    SetQualifier |-> <<Ck("ns"), Ck("invalid"), Wr(4)>>,
    DeleteQualifier |-> <<Ck("ns"), Ck("notfound"), Wr(4)>>,
    CreateInstance |-> <<Ck("ns"), Ck("class"), Ck("props"), Ck("key"),
@@ -126,6 +170,16 @@ Table ==
        ELSE <<Ck("ns"), Ck("class"), Ck("props"), Ck("endpoint"),
               Ck("class2"), Ck("key"), Ck("exists2"), Wr(3), Ck("exists"),
               Wr(2)>>,
+   \* both references point into the same OTHER namespace, spelled in two
+   \* ways ("alias" holds): one copy there (3) and one in the target (2)
+   CreateInstanceMultiNsAlias |->
+       IF NsAlias = "nocase"
+       THEN <<Ck("ns"), Ck("class"), Ck("props"), Ck("endpoint"),
+              Ck("class2"), Ck("key"), Ck("exists"), Ck("exists2"),
+              Wr(3), Wr(2)>>
+       ELSE <<Ck("ns"), Ck("class"), Ck("props"), Ck("endpoint"),
+              Ck("class2"), Ck("key"), Ck("exists"), Ck("exists2"),
+              Wr(3), Ck("alias"), Wr(2)>>,
    ModifyInstance |-> <<Ck("ns"), Ck("class"), Ck("notfound"), Ck("plist"),
                         Ck("props"), Ck("keychange"), Wr(2)>>,
    ModifyInstanceMultiNs |-> <<Ck("ns"), Ck("class"), Ck("notfound"),
@@ -134,6 +188,18 @@ Table ==
    DeleteInstance |-> <<Ck("ns"), Ck("class"), Ck("notfound"), Wr(2)>>,
    DeleteInstanceMultiNs |-> <<Ck("ns"), Ck("class"), Ck("notfound"),
                                Ck("notfound2"), Wr(3), Wr(2)>>,
+   \* an association spanning THREE namespaces: copies 3, 4 in the other
+   \* two namespaces (in the order of the references), 2 in the target
+   DeleteInstanceMultiNs3 |->
+       IF MultiNsDelete = "all-first"
+       THEN <<Ck("ns"), Ck("class"), Ck("notfound"), Ck("notfound2"),
+              Ck("notfound3"), Wr(3), Wr(4), Wr(2)>>
+       ELSE <<Ck("ns"), Ck("class"), Ck("notfound"), Ck("notfound2"), Wr(3),
+              Ck("notfound3"), Wr(4), Wr(2)>>,
+   ModifyInstanceMultiNs3 |-> <<Ck("ns"), Ck("class"), Ck("notfound"),
+                                Ck("props"), Ck("endpoint"), Ck("class2"),
+                                Ck("class3"), Ck("notfound2"),
+                                Ck("notfound3"), Wr(3), Wr(4), Wr(2)>>,
    add_namespace |-> <<Ck("exists"), Wr(4)>>,
    remove_namespace |-> <<Ck("notfound"), Ck("notempty"), Wr(4)>>,
    \* CreateInstance of CIM_Namespace: the dispatcher's checks (namespace,
@@ -175,6 +241,12 @@ Undo(op, x, pc) ==
          \* check); only the outer snapshot undoes the earlier files
          IF Rollback /\ (SchemaListRollback \/ pc <= 3) THEN Scope ELSE {}
     [] op = "DeleteClassProvider" -> IF DeleteClassUndo THEN Items ELSE {}
+    [] op = "DeleteClassSubtree" ->
+         \* the snapshot holds what was there when it was taken: with
+         \* "per-class" the instance-less subclass (3) is already deleted
+         IF ~DeleteClassUndo THEN {}
+         ELSE IF DeleteClassInstances = "subtree-first" THEN Items
+         ELSE Items \ {3}
     [] op = "CreateNamespaceInstance" ->
          \* except Exception: if namespace_added: remove_namespace(...)
          IF NsProviderOrder = "fixed" THEN {4} ELSE {}
